@@ -88,8 +88,10 @@ pub fn run_history(ctx: &Ctx) -> Report {
     let nhist = ctx.budget(120, 1200, 1);
     let mut lens_hist: Vec<i64> = Vec::new();
     for h in 0..nhist {
-        let len = if h % 10 == 0 { 3000 } else { 200 + rng.below(800) };
-        let psize = 2 + rng.below(7);
+        // interpreter slices: a dozen operations over two instances
+        let light = cfg!(miri) || ctx.light();
+        let len = if light { 12 } else if h % 10 == 0 { 3000 } else { 200 + rng.below(800) };
+        let psize = if light { 2 } else { 2 + rng.below(7) };
         let mut slots: Vec<Slot> = Vec::new();
         while slots.len() < psize {
             if let Some(s) = make_slot(&es, &pool, &mut rng, None, None) {
@@ -177,13 +179,17 @@ pub fn run_threads(ctx: &Ctx) -> Report {
         let nthreads = [2usize, 4, 8, 16][rng.below(4)];
         // 3 shared instances, cases precomputed with the reference (single-threaded)
         let mut shared: Vec<(String, Vec<u8>, Inst, Vec<(bool, usize, Vec<u8>, Vec<u8>)>)> = Vec::new();
+        // the instances must reach the threads untouched: nothing is called on them here (not even
+        // the width probe, which would run whatever a type does lazily on its first call)
+        let wrappers: Vec<usize> = pool.iter().cloned().filter(|i| es[*i].family == "aes" || es[*i].family == "kuznyechik").collect();
         while shared.len() < 3 {
-            if let Some(s) = make_slot(&es, &pool, &mut rng, None, None) {
+            let pick = if shared.is_empty() && !wrappers.is_empty() && rng.below(2) == 0 { Some(wrappers[rng.below(wrappers.len())]) } else { None };
+            if let Some(s) = make_slot(&es, &pool, &mut rng, None, pick) {
                 let bs = s.inst.bs();
                 let mut cases = Vec::new();
                 for c in 0..24u64 {
                     let encrypt = c % 2 == 0;
-                    let n = if c % 3 == 0 { 1 + rng.below(2 * s.inst.width(encrypt) + 2) } else { 1 };
+                    let n = if c % 3 == 0 { [2usize, 3, 5, 9, 10, 19, 22, 43][rng.below(8)] } else { 1 };
                     let cl = gen::pick_class(&mut rng, c);
                     let data = gen::gen(&mut rng, n * bs, cl);
                     let mut want = data.clone();
